@@ -69,8 +69,8 @@ M = [
   "        child = self.child_at_index(name, -1 if index == 0 else index)\n        self.remove(child)\n        return child",
   'delete by name with two or more repetitions present'),
  ('C09', 'replace_moves_by_name_index', 'hl7apy/core.py',
-  "                self.indexes[child.name].insert(by_name_index, child)\n\n    def append",
-  "                self.indexes[child.name].insert(by_name_index + 1, child)\n\n    def append",
+  "            self.indexes[child.name].remove(child)\n            self.indexes[child.name].insert(by_name_index, child)\n\n    def append",
+  "            self.indexes[child.name].remove(child)\n            self.indexes[child.name].insert(by_name_index + 1, child)\n\n    def append",
   'indexed replacement followed by another indexed operation on the same name'),
  ('C10', 'delitem_leaves_index', 'hl7apy/core.py',
   "        child = self.list[index]\n        self._remove_from_index(child)\n        del self.list[index]",
